@@ -30,6 +30,7 @@ OffPairs == << <<0, 3600>>, <<-18000, -14400>>, <<3600, 0>>, <<-89999, 93599>>, 
 TyS(off) == [off |-> off, dst |-> 0, des |-> <<83, 84, 68>>]
 TyD(off) == [off |-> off, dst |-> 1, des |-> <<68, 83, 84>>]
 NoRule == [k |-> "none"]
+CycleNeg == -1            \* years -400..-1 (a .cfg file cannot hold a negative number)
 \* initial states: one per (start day, end day) so that all workers share the rule enumeration
 Init == \/ vPh = 0 /\ vR = NoRule /\ vSum = NoSummary /\ vY \in DayIds /\ vM \in DayIds
         \/ vPh = 9 /\ vR = NoRule /\ vSum = NoSummary /\ vY \in 0..399 /\ vM \in 1..12       \* part (1)
